@@ -293,6 +293,45 @@ def judge_paths_table(label, fn):
     return None
 
 
+def judge_filters_follow_the_table():
+    """class / subclass filters select by the id a record carries, decoding goes by the name the SUPPLIED table gives that id: with
+    the lookup code moved into the requested BSD subclass its traces are requested too; with getpid moved to a file-system-class id
+    it is not among the BSD traces."""
+    import io
+    from pykdebugparser.pykdebugparser import PyKdebugParser
+    T = default_table()
+    bad = []
+    for label, moved_name, new_id in (('lookup-moved-into-the-bsd-class', 'VFS_LOOKUP', 0x40c0ff0), ('getpid-moved-into-the-file-system-class', 'BSC_getpid', 0x3010050),
+                                      ('nothing-moved', None, None)):
+        T2 = dict(T)
+        ids = {n: E.n2i(n) for n in ('BSC_open', 'VFS_LOOKUP', 'BSC_getpid')}
+        if moved_name:
+            del T2[ids[moved_name]]
+            T2[new_id] = moved_name
+            ids[moved_name] = new_id
+        look = B.lookup_chunks(0x77, '/etc/hosts')
+        recs = [B.rec(1, (1, 0, 0, 0), 1, ids['BSC_open'] | 1)] + [B.rec(2 + i, tid=1, debugid=ids['VFS_LOOKUP'] | q, data=d) for i, (d, q) in enumerate(look)] + \
+               [B.rec(8, (0, 3, 0, 0), 1, ids['BSC_open'] | 2), B.rec(9, (0, 0, 0, 0), 1, ids['BSC_getpid'] | 1), B.rec(10, (0, 5, 0, 0), 1, ids['BSC_getpid'] | 2)]
+        blob = B.v2([(1, 10, 'A')], 0, recs)
+
+        def ask(cl, sc):
+            f = PyKdebugParser()
+            f.filter_class, f.filter_subclass = list(cl), list(sc)
+            return [(t.ktraces[0].eventid, str(t)) for t in f.traces(io.BytesIO(blob), T2)]
+        try:
+            full = ask((), ())
+            for cl, sc in (((4,), ()), ((), (0x040c,)), ((3,), ()), ((4, 3), ()), ((), (0x0301,))):
+                exp = [x for x in full if (x[0] >> 24) in cl or (x[0] >> 16) in sc]
+                got = ask(cl, sc)
+                if got != exp:
+                    bad.append(('filtered-traces-under-supplied-table-differ-from-restricted-unfiltered', {'table': label, 'classes': list(cl), 'subclasses': list(sc),
+                                                                                                       'got': [g[1] for g in got], 'expected': [g[1] for g in exp]}))
+                    break
+        except Exception as ex:
+            bad.append(('decoding-under-supplied-table-raised', {'table': label, 'error': repr(ex)[:200]}))
+    return bad
+
+
 def judge_file_loader():
     """from_trace_codes_file: what is loaded is what the file holds NOW - also when the file was replaced without its
     modification time changing, and for several files in turn."""
@@ -429,6 +468,9 @@ class C19(Check):
             if dict(default_trace_codes()) != a_copy or a_copy != default_table():
                 acc.violation('bundled-table-load-not-repeatable', {'kind': 'file-loader'}, {})
         elif desc[0] == 'callstacks':
+            for sig, detail in judge_filters_follow_the_table():
+                acc.violation(sig, {'kind': 'filters-follow-the-table'}, detail)
+            acc.case(nontrivial=True, transitions=18)
             for label, fn in edits():
                 if not any(n in label for n in ('PERF_', 'bundled', 'empty', 'only-one', 'BSC_open', UNDECODABLE)):
                     continue
@@ -457,6 +499,8 @@ class C19(Check):
             d = dict(edits())
             bad = judge_two_listings([tuple(x) for x in case['ops']], case['edits'][0], d[case['edits'][0]], case['edits'][1], d[case['edits'][1]])
             return [(bad[0] + ':two-lazy-listings', bad[1])] if bad else []
+        if case['kind'] == 'filters-follow-the-table':
+            return judge_filters_follow_the_table()
         if case['kind'] == 'file-loader':
             bad = judge_file_loader()
             return [bad] if bad else []
